@@ -264,6 +264,39 @@ func c19History(k *fw.K) {
 		return v, foreign{}, "foreign target"
 	}
 	for bi, b := range batches {
+		if r.Intn(8) == 0 {
+			// a call whose target (or prediction) is the caller's own struct embedding a library tensor of the right rank and length: it
+			// passes every shape test. Whether the library takes it or refuses it is its choice - refused, it counts nothing; taken, it
+			// counts like any batch (all positions equal here: both sides hold ones)
+			n := 1 + r.Intn(4)
+			real, wrapped := rt.MustLeaf(ref.Full([]int{n}, 1), false), tensor.Tensor(namedTensor{Tensor: rt.MustLeaf(ref.Full([]int{n}, 1), false), name: "labels"})
+			var err error
+			if pn := call(func() {
+				if r.Intn(2) == 0 {
+					err = acc.Accumulate(real, wrapped)
+				} else {
+					err = acc.Accumulate(wrapped, real)
+				}
+			}); pn != nil {
+				k.Failf("Accumulate with a caller-side struct embedding a tensor: PANIC: %v", pn)
+				return
+			}
+			if err == nil {
+				matched, total = matched+n, total+n
+				played = append(played, batch{ref.Full([]int{n}, 1).Data, ref.Full([]int{n}, 1).Data})
+				k.Count("embedded_struct_calls_accepted", 1)
+				if !result("after the accepted call with a caller-side struct embedding a tensor") {
+					return
+				}
+			} else {
+				k.Count("embedded_struct_calls_refused", 1)
+				rejectedJustNow = true
+				if !result("after the refused call whose target is a caller-side struct embedding a tensor of the right rank and length") {
+					return
+				}
+				rejectedJustNow = false
+			}
+		}
 		if r.Intn(4) == 0 { // an invalid call in between
 			p, t, what := bad()
 			var err error
